@@ -922,11 +922,6 @@ func removeJobFromWaitList(waitList []*PipelineJob, jobToRemove *PipelineJob) []
 
 // determineIfJobShouldBeRemoved implements the retention period handling.
 func (r *PipelineRunner) determineIfJobShouldBeRemoved(index int, job *PipelineJob) (bool, string) {
-	pipelineDef, pipelineDefExists := r.defs.Pipelines[job.Pipeline]
-	if !pipelineDefExists {
-		return true, "Pipeline definition not found"
-	}
-
 	if job.Start == nil && !job.Canceled {
 		// always keep jobs on wait list
 		return false, "Keeping job on wait list"
@@ -935,6 +930,13 @@ func (r *PipelineRunner) determineIfJobShouldBeRemoved(index int, job *PipelineJ
 	if !job.Completed && !job.Canceled {
 		// always keep jobs which are not yet in some "finished" state
 		return false, "Keeping non-finished job"
+	}
+
+	// Jobs of a pipeline that is no longer defined are removed as soon as they are finished: a job that still waits
+	// or runs must stay known to the runner, otherwise it would neither be reported nor counted any more
+	pipelineDef, pipelineDefExists := r.defs.Pipelines[job.Pipeline]
+	if !pipelineDefExists {
+		return true, "Pipeline definition not found"
 	}
 
 	if pipelineDef.RetentionPeriod > 0 && time.Since(job.Created) > pipelineDef.RetentionPeriod {
